@@ -112,10 +112,30 @@ def extract():
     if len(gloc) != 3 or len(glat) != 3:
         raise ExtractError("VersionForTable: unexpected shape for Gloc/Glat cases: %r %r" % (gloc, glat))
     csv = function_body(otf, r"int\s+GrcManager::CalculateSilfVersion\s*\(")
-    csv_consts = [int(x, 16) for x in re.findall(r"0x000[0-9a-fA-F]+", csv)]
-    return env, order, {"glocThreshold": gloc[0], "glocNew": gloc[1], "glocOld": gloc[2],
+
+    def bump(cond_regex, what):
+        m = re.search(cond_regex + r"[^{;]*fxdResult\s*<\s*(0x[0-9a-fA-F]+)\s*\)\s*\{?\s*(?://[^\n]*\n\s*)*fxdResult\s*=\s*(0x[0-9a-fA-F]+)", csv, flags=re.S)
+        if not m:
+            raise ExtractError("CalculateSilfVersion: cannot find the %s bump" % what)
+        a, b = int(m.group(1), 16), int(m.group(2), 16)
+        if a != b:
+            raise ExtractError("CalculateSilfVersion: %s threshold %x and target %x differ" % (what, a, b))
+        return a
+    c_comp = bump(r"m_tcCompressor\s*!=\s*ktcNone\s*&&", "compression")
+    c_coll = bump(r"HasCollisionPass\(\)\s*&&", "collision")
+    c_popt = bump(r"IncludePassOptimizations\(\)\s*&&", "pass-optimisation")
+    m = re.search(r"cbSpaceNeeded\s*>\s*(0x[0-9a-fA-F]+)\s*\)\s*\{[^}]*fxdResult\s*=\s*(0x[0-9a-fA-F]+)", csv, flags=re.S)
+    if not m:
+        raise ExtractError("CalculateSilfVersion: cannot find the long-offset bump")
+    gm = strip_comments(open(os.path.join(REPO, "compiler", "GrcManager.h"), encoding="latin-1").read())
+    mm = re.search(r"int\s+DefaultSilfVersion\s*\(\s*\)\s*\{\s*return\s+(0x[0-9a-fA-F]+)\s*;", gm)
+    if not mm:
+        raise ExtractError("GrcManager.h: DefaultSilfVersion() not found")
+    default_v = int(mm.group(1), 16)
+    return env, order, {"defaultSilfVersion": default_v, "glocThreshold": gloc[0], "glocNew": gloc[1], "glocOld": gloc[2],
                         "glatThreshold": glat[0], "glatNew": glat[1], "glatOld": glat[2],
-                        "silfCompress": csv_consts[0] if csv_consts else None}
+                        "silfCompress": c_comp, "silfCollision": c_coll, "silfPassOpt": c_popt,
+                        "silfOffsetLimit": int(m.group(1), 16), "silfLongOffsets": int(m.group(2), 16)}
 
 
 def lean_name(n):
